@@ -94,12 +94,16 @@ def run(ctx):
                    site=f.loc, construct=name + " shape")
             continue
         cl = claim[0]
-        for n in [cl.node] + wakes + [s.node for s in ops]:
+        reads = [l.node for l in f.loads_of(C, "waiter_count")]
+        for n in [cl.node] + wakes + [s.node for s in ops] + reads:
             x = c01.held_lock_ok(f, n, locks, unl)
             if x is not None:
-                bad = bad or "`%s` is reachable without the internal mutex held" % n.text[:50]
+                bad = bad or ("`%s` is reachable without the internal mutex held (waiter_count is transiently off by one while a signal that found "
+                              "nobody restores it: a decision taken on an unlocked read can skip a registered waiter)" % n.text[:50])
         if f.find_path(locks[0], "exit", barrier=nodeset(unl)) is not None:
             bad = bad or "a path returns with the internal mutex still locked"
+        if f.find_path("entry", "exit", barrier=nodeset(locks)) is not None:
+            bad = bad or "a path returns without ever taking the internal mutex (no claim is made, no waiter can be released on it)"
         isop = lambda n: n is cl.node
         if kind == "fetch_sub":
             if cl.value.cv != 1:
